@@ -95,36 +95,15 @@ def live_tables():
 
 
 # ---------------------------------------------------------------- monitor 2
-# machine infixes of registry names -> e_machine codes they apply to (my own map)
-MACH = {'ARM': {40}, 'AARCH64': {183}, 'X86_64': {62}, 'AMD64': {62}, 'MIPS': {8},
-        'RISCV': {243}, 'PARISC': {15}, 'ALPHA': {0x9026, 41}, 'IA_64': {50}, 'HEX': {164},
-        'HEXAGON': {164}, 'MSP430': {105}, 'CSKY': {252}, 'PPC': {20}, 'PPC64': {21},
-        'SPARC': {2, 18, 43}, 'S390': {22}, 'NIOS2': {113}, 'ARC': {45, 93, 195}, 'HP': {15},
-        'AVR': {83}, 'XTENSA': {94}, 'SH': {42}, 'M68K': {4}, 'LOONGARCH': {258}}
+from ..ref.names import MACH, applicable as _applicable
 CONTEXTS = [  # (label, e_machine, osabi)
     ('i386', 3, 0), ('x86-64', 62, 0), ('arm', 40, 0), ('aarch64', 183, 0), ('mips', 8, 0),
     ('riscv', 243, 0), ('ppc64', 21, 0), ('sparc-solaris', 2, 6),
     ('x86-64-solaris', 62, 6),
 ]
-OS_INFIX = {}   # OS-range names (SUNW, GNU) are shown whatever EI_OSABI says; not judged by OS
-
 
 def applicable(name, prefix, machine, osabi):
-    """Is registry name `name` (prefix_...) in the table for this machine/OS?"""
-    rest = name[len(prefix):]
-    if prefix not in ('SHT_', 'PT_', 'DT_'):
-        return True
-    for inf, ms in MACH.items():
-        if rest.startswith(inf + '_') or rest == inf:
-            # longest infix wins: PPC64_ must not be read as PPC_
-            better = [i for i in MACH if i != inf and i.startswith(inf) and rest.startswith(i + '_')]
-            if better:
-                continue
-            return machine in ms
-    for inf, o in OS_INFIX.items():
-        if rest.startswith(inf + '_'):
-            return osabi == o
-    return True
+    return _applicable(name, prefix, machine)
 
 
 def lib_names_with_prefix(prefix):
